@@ -1006,7 +1006,10 @@ int json_c_set_serialization_double_format(const char *double_format, int global
 		}
 #endif
 		if (global_serialization_float_format)
+		{
 			free(global_serialization_float_format);
+			global_serialization_float_format = NULL;
+		}
 		if (double_format)
 		{
 			char *p = strdup(double_format);
@@ -1017,10 +1020,6 @@ int json_c_set_serialization_double_format(const char *double_format, int global
 				return -1;
 			}
 			global_serialization_float_format = p;
-		}
-		else
-		{
-			global_serialization_float_format = NULL;
 		}
 	}
 	else if (global_or_thread == JSON_C_OPTION_THREAD)
